@@ -1,6 +1,7 @@
 //! Format layer: for every reader/writer kind, the careful-user protocol the harness follows
 //! (DESIGN.md §12): how a model is written, how a source is read into an observation.
 
+pub mod aio;
 pub mod align;
 pub mod cram;
 pub mod index;
